@@ -17,7 +17,7 @@ SCALAR_HEADS = {
 }
 VECTOR_HEADS = {
     "vvar", "slice", "row", "col", "diag", "vbin", "rvbin", "vneg", "vpow", "vun", "mv",
-    "matmulf", "Mv", "arr", "lst", "cvec",
+    "matmulf", "Mv", "arr", "lst", "cvec", "pvec",
 }
 MATRIX_HEADS = {"mvar", "T", "sub", "mbin", "rmbin", "mneg", "diagm", "arr2", "lst2"}
 
@@ -191,6 +191,9 @@ class Interp:
 
     _lst = _arr
     _cvec = _arr
+
+    def _pvec(self, r):
+        return [self.A.param(n) for n in r[1]]
 
     def _slice(self, r):
         out = self.ev(r[1])[_sl(r[2], r[3], r[4])]
@@ -386,7 +389,7 @@ class _Names:
 
 
 def param_names(r):
-    return sorted({s[1] for s in walk(r) if s[0] == "par"})
+    return sorted({s[1] for s in walk(r) if s[0] == "par"} | {n for s in walk(r) if s[0] == "pvec" for n in s[1]})
 
 
 def natural_key(name):
